@@ -26,7 +26,7 @@ def run(tier):
     scen.append({"kind": "direct", "strategy": "expand", "sinks": "fast", "directed": "slowdrain"})
     for kind in ("late", "slide_idle"):      # watermark far ahead of the window cursor (idle timeout over historic timestamps)
         scen.append({"kind": kind, "strategy": "drop", "sinks": "fast", "directed": "idlestop"})
-    for kind in ("boom_direct", "boom_where", "boom_count", "boom_global", "boom_analytic", "boom_cep"):      # a row that makes a user function panic does not stop later rows
+    for kind in ("boom_direct", "boom_where", "boom_count", "boom_agg", "boom_global", "boom_analytic", "boom_cep"):      # a row that makes a user function panic does not stop later rows
         scen.append({"kind": kind, "strategy": "drop", "sinks": "fast", "directed": "rowpanic"})
     for kind in KINDS:
         for strat in ("drop", "block", "expand"):
